@@ -242,6 +242,19 @@ def load_tolerant(ctx):
         ctx.check(not raises, h, "the handler does not re-raise", "the handler re-raises: a damaged entry makes the call fail")
         rets = [n for s in h.body for n in walk_local(s) if isinstance(n, ast.Return)]
         ctx.check(not rets, h, "the handler does not return (falls through to recompute)", "the handler returns without recomputing")
+        # the handler itself must be total: its message formatting cannot raise on arbitrary argument reprs
+        import string as _string
+        for fc in [c_ for s_ in h.body for c_ in calls_in(s_) if call_attr(c_) == "format" and isinstance(c_.func, ast.Attribute)]:
+            recv = fc.func.value
+            okf = isinstance(recv, ast.Constant) and isinstance(recv.value, str)
+            if okf:
+                try:
+                    fields = [f_ for _, f_, _, _ in _string.Formatter().parse(recv.value) if f_ is not None]
+                except ValueError:
+                    fields = None
+                okf = fields is not None and all(f_ == "" or f_.isdigit() for f_ in fields) and len(fields) <= len(fc.args)
+            ctx.check(okf, fc, "the warning text is a constant template with one placeholder per argument (formatting cannot raise)",
+                      "str.format is applied to text that already contains interpolated values (%s): braces in an argument's repr make the handler itself raise, and the call fails instead of recomputing" % unparse(recv, 80))
         ctx.check(g.every_path_from(g.nodes_of(h), g.nodes_of_all(calls)), h, "every path from the handler reaches self._call(...) (recompute)",
                   "a path from the load-failure handler leaves _cached_call without recomputing")
     for c in calls:
